@@ -440,18 +440,24 @@ class Placer:
         return out
 
 
-def gen_case(case_seed, profile, workdir):
+def gen_case(case_seed, profile, workdir, force_mode=None):
     """
     profile: 'c13' (no partially matching decoy, no aligned v1), 'd27' (one partially matching decoy enumerated
-    first), 'd28' (aligned v1 metafile), 'c14' (everything, plus a pre-populated destination).
+    first), 'd28' (aligned v1 metafile), 'c14' (everything, plus -- done by c14.py -- a pre-populated destination).
     Everything is derived from case_seed.  Files are written under workdir.
+    force_mode='cli-proc': the unpatched command line in a fresh interpreter (enumeration order of the filesystem).
     """
     rng = random.Random(case_seed)
-    case = {"seed": case_seed, "profile": profile, "workdir": workdir, "classes": set()}
+    case = {"seed": case_seed, "profile": profile, "workdir": workdir, "classes": set(), "force_mode": force_mode}
     cl = case["classes"]
     nb = 1 if rng.random() < 0.72 or profile in ("d27", "d28") else rng.choice([2, 2, 3])
     if nb > 1:
         cl.add(f"batch of {nb} metafiles")
+    case["order"] = "sorted" if profile == "d27" else rng.choice(["sorted", "sorted", "reversed"])
+    case["mode"] = "api" if rng.random() < 0.7 else "cli"
+    if force_mode == "cli-proc":
+        case["mode"], case["order"] = "cli-proc", "native"
+    rev = case["order"] == "reversed"
     torrents = []
     for i in range(nb):
         pl = rng.choice([16384, 16384, 16384, 32768])
@@ -483,21 +489,27 @@ def gen_case(case_seed, profile, workdir):
         cl.update(classify_layout(t))
     case["torrents"] = torrents
 
-    # ---- scatter
+    # ---- scatter: intact copies of EVERY file under its own file name, decoys, unrelated files
     nroots = rng.choice([1, 1, 2, 3])
     cl.add(f"{nroots} search root{'s' if nroots > 1 else ''}")
     pc = Placer()
     case["placer"] = pc
-    case["decoys"] = []          # dicts: torrent index, layout index, kind, path
+    case["decoys"] = []          # dicts: t (torrent index), l (layout index), kind, path
     n_samesize = 0
+
+    def spot(where, root):
+        """(search root, band) enumerated before / after band '5' of `root` under the case's listing order"""
+        if where == "before":
+            return rng.randrange(0, root + 1), ("9" if rev else "1")
+        return rng.randrange(root, nroots), ("1" if rev else "9")
     for ti, t in enumerate(torrents):
         for li, e in enumerate(t["layout"]):
             if e["rel"] is None:
                 continue
             fname, data = e["rel"][-1], e["data"]
             want_same = len(data) > 0 and rng.random() < 0.30 and n_samesize < 5
-            want_part = profile in ("d27", "c14") and len(data) > t["pl"] and "v1" == t["views"][0] \
-                and (profile == "c14" and rng.random() < 0.2 or profile == "d27" and not case.get("partial"))
+            want_part = len(data) > t["pl"] and "v1" == t["views"][0] and \
+                ((profile == "c14" and rng.random() < 0.2) or (profile == "d27" and not case.get("partial")))
             banded = want_same or want_part
             root = rng.randrange(nroots)
             p = pc.place(rng, root, "5" if banded else None, fname, data, "intact", min_depth=1 if banded else 0)
@@ -505,18 +517,19 @@ def gen_case(case_seed, profile, workdir):
             if want_same:
                 n_samesize += 1
                 for where in rng.choice([["before"], ["after"], ["before", "after"]]):
-                    band, r2 = ("1", rng.randrange(0, root + 1)) if where == "before" else ("9", rng.randrange(root, nroots))
+                    r2, band = spot(where, root)
                     q = pc.place(rng, r2, band, fname, wholly_different(data, rng.randrange(251)), "same-size decoy", 1)
                     case["decoys"].append({"t": ti, "l": li, "kind": "same-size", "path": q})
             if want_part:
-                # agrees with the intact file on one whole piece overlapping it, differs everywhere else
+                # agrees with the intact file on one whole piece overlapping it, differs in every other byte
                 off = e["offset"]
                 pcs = list(range(off // t["pl"], (off + len(data) - 1) // t["pl"] + 1))
-                k = rng.choice(pcs)
+                k = pcs[0] if profile == "d27" else rng.choice(pcs)     # D27 shows when the FIRST piece of the file agrees
                 a, b = max(off, k * t["pl"]) - off, min(off + len(data), (k + 1) * t["pl"]) - off
                 bad = wholly_different(data, rng.randrange(251))
                 bad = bad[:a] + data[a:b] + bad[b:]
-                q = pc.place(rng, rng.randrange(0, root + 1), "1", fname, bad, "partial decoy", 1)
+                r2, band = spot("before" if profile == "d27" else rng.choice(["before", "after"]), root)
+                q = pc.place(rng, r2, band, fname, bad, "partial decoy", 1)
                 case["decoys"].append({"t": ti, "l": li, "kind": "partial", "path": q})
                 case["partial"] = True
             if rng.random() < 0.35:
@@ -537,7 +550,7 @@ def gen_case(case_seed, profile, workdir):
         os.makedirs(os.path.dirname(fp), exist_ok=True)
         with open(fp, "wb") as fd:
             fd.write(data)
-    # a search "directory" may be a plain file: point one root straight at the intact copy of a single file torrent
+    # a search "directory" may be a plain file: point the search straight at the intact copy of a single file torrent
     if nb == 1 and torrents[0]["single_by_metafile"] and not case["decoys"] and rng.random() < 0.5:
         e = torrents[0]["layout"][0]
         case["search"] = [os.path.join(case["search"][e["intact_at"][0]], *e["intact_at"][1:])]
@@ -545,9 +558,6 @@ def gen_case(case_seed, profile, workdir):
         cl.add("search root is a file")
 
     # ---- job
-    case["order"] = rng.choice(["sorted", "sorted", "reversed"])
-    mode = rng.random()
-    case["mode"] = "api" if mode < 0.7 else "cli"
     metas = [t["metafile"] for t in torrents]
     if nb > 1 and rng.random() < 0.5:
         metas = [os.path.join(workdir, "meta")]
@@ -555,11 +565,11 @@ def gen_case(case_seed, profile, workdir):
     case["metafiles"] = metas
     case["dest"] = os.path.join(workdir, "out", "dest")
     dd = rng.random()
-    if dd < 0.12:
+    if dd < 0.14:
         os.makedirs(case["dest"])
         case["dest_arg"], case["cwd"] = ".", case["dest"]
-        cl.add("destination '.' (relative, one element)")
-    elif dd < 0.22:
+        cl.add("destination '.' (relative, one element, cwd = destination)")
+    elif dd < 0.24:
         os.makedirs(case["dest"])
         case["dest_arg"], case["cwd"] = os.path.join("..", "out", "dest"), os.path.join(workdir, "meta")
         cl.add("relative destination")
@@ -589,6 +599,8 @@ def gen_case(case_seed, profile, workdir):
                     d["enumerated"] = rel
                     if d["kind"] == "different-size":
                         cl.add("candidates: different-size decoy")
+                    elif case["order"] == "native":
+                        cl.add(f"candidates: {d['kind']} decoy, enumeration order of the filesystem")
                     elif d["kind"] == "same-size":
                         cl.add(f"candidates: same-size wholly wrong decoy {rel} the intact copy")
                     else:
@@ -744,9 +756,20 @@ def check_records(case, reply, dest):
 
 
 def outside_events(reply, dest):
-    """mutating audit events whose target is not under the destination"""
+    """mutating audit events whose target is not under the destination (creating the destination path itself, i.e.
+       os.mkdir of one of its missing ancestors, is the destination being created, not an escape)"""
     rd = os.path.realpath(dest)
-    return [ev for ev in (reply.get("events") or []) if ev[2] or not (ev[1].startswith("<fd") or _under(ev[1], rd))]
+    out = []
+    for ev in (reply.get("events") or []):
+        if ev[2]:
+            out.append(ev)
+        elif ev[1].startswith("<fd") or _under(ev[1], rd):
+            continue
+        elif ev[0] == "os.mkdir" and _under(rd, ev[1]):
+            continue
+        else:
+            out.append(ev)
+    return out
 
 
 # =============================================================================== model vs implementation
@@ -923,7 +946,7 @@ def match_v1_tie(ctx, model_ok):
                 m = rb.Metadata(mf)
                 fm = rb._index_contents([os.path.join(cdir, "s")], m.filenames)
                 rb.copypath = lambda src, dst: (calls.append((src, os.path.relpath(dst, dest))), real_copy(src, dst))[1]
-                trees.quiet(m._match_v1, fm, dest)
+                trees.quiet(m.rebuild, fm, dest)          # dispatches to _match_v1 (v1 metafile)
                 outcome = "".join("S" if nd.result is None else "T" if nd.result else "F" for nd in m.piece_nodes)
             except Exception as e:  # noqa
                 ctx.disagree("Metadata._match_v1 raised", {"sizes": sizes, "pl": pl, "names": names}, "an outcome",
